@@ -6,7 +6,7 @@ CONSTANTS
   AllowReg = FALSE
   CopyOpts = FALSE
   TightCap = TRUE
-  CopyArgs = FALSE
+  CopyArgs = TRUE
   HtmlDep = FALSE
 VIEW View
 INVARIANT SharedReadOnly
